@@ -572,6 +572,8 @@ func runC06(c *Ctx) {
 	// "complete" itself: a fragment - also the only fragment of a 1-packet transfer - is not complete, the reassembled
 	// message is: otherwise one request is answered (and reported to the callbacks) twice
 	c.hasCompleteContract()
+	// "a sub-packaged message counts once, when complete": the count behind the completion test (rule of C05)
+	c.completeCountRule()
 	// ---- 4. single receive site of msgChan
 	nRecv, where := 0, ""
 	for _, fn := range c.RepoFuncs("service") {
